@@ -28,7 +28,7 @@ func init() {
 // FSpec is one generated filter.
 type FSpec struct {
 	ID   string `json:"id"`
-	Kind string `json:"kind"` // pass, stop, replace, attr, mw_r, mw_w, mw_rw, panic
+	Kind string `json:"kind"` // pass, stop, replace, attr, mw_r, mw_w, mw_rw, mw_async, panic
 }
 
 type c06Route struct {
@@ -62,7 +62,7 @@ type C06Case struct {
 	Workers int `json:"workers,omitempty"` // concurrent part: goroutines issuing the multiset
 }
 
-var filterKinds = []string{"pass", "pass", "pass", "attr", "attr", "replace", "mw_r", "mw_w", "mw_rw", "stop", "panic"}
+var filterKinds = []string{"pass", "pass", "pass", "attr", "attr", "replace", "mw_r", "mw_w", "mw_rw", "mw_async", "stop", "panic"}
 
 func genFilters(t *rapid.T, prefix string, max int) []FSpec {
 	n := rapid.IntRange(0, max).Draw(t, prefix+"n")
@@ -88,6 +88,26 @@ func genC06(t *rapid.T, concurrent bool) C06Case {
 			sv.Routes = append(sv.Routes, c06Route{Path: "/r" + strconv.Itoa(r), Filters: genFilters(t, "s"+strconv.Itoa(s)+"r"+strconv.Itoa(r)+"f", maxF), Panics: rapid.IntRange(0, 9).Draw(t, "handlerpanics") == 0})
 		}
 		c.Services = append(c.Services, sv)
+	}
+	// at most one asynchronous middleware per configuration (it returns before the rest of the
+	// chain has finished, like http.TimeoutHandler after its deadline)
+	seenAsync := false
+	demote := func(fs []FSpec) {
+		for i := range fs {
+			if fs[i].Kind == "mw_async" {
+				if seenAsync || concurrent {
+					fs[i].Kind = "mw_rw"
+				}
+				seenAsync = true
+			}
+		}
+	}
+	demote(c.Container)
+	for si := range c.Services {
+		demote(c.Services[si].Filters)
+		for ri := range c.Services[si].Routes {
+			demote(c.Services[si].Routes[ri].Filters)
+		}
 	}
 	c.HWF = rapid.Bool().Draw(t, "hwf")
 	if c.HWF || rapid.Bool().Draw(t, "viaserve") {
@@ -194,6 +214,28 @@ func checkC06(c C06Case, partName string) (vs []*Violation) {
 		parkAt = c.Container[c.Parked.At].ID
 	}
 
+	// asynchronous middleware support: the element after the middleware computes what it passes
+	// on, lets the middleware return, and only then passes control on
+	type asyncCtl struct {
+		reached, returned, finished chan struct{}
+		once                        sync.Once
+	}
+	var amu sync.Mutex
+	async := map[string]*asyncCtl{}
+	getAsync := func(rid string) *asyncCtl {
+		amu.Lock()
+		defer amu.Unlock()
+		return async[rid]
+	}
+	asyncHook := func(rid string) {
+		if ctl := getAsync(rid); ctl != nil {
+			fired := false
+			ctl.once.Do(func() { close(ctl.reached); fired = true })
+			if fired {
+				<-ctl.returned
+			}
+		}
+	}
 	mkFilter := func(f FSpec) restful.FilterFunction {
 		base := func(req *restful.Request, resp *restful.Response, chain *restful.FilterChain) {
 			rid := req.Request.Header.Get(c06ReqHeader)
@@ -215,6 +257,7 @@ func checkC06(c C06Case, partName string) (vs []*Violation) {
 				nresp := restful.NewResponse(resp.ResponseWriter)
 				s := stateOf(nreq, nresp)
 				ev.Passed = &s
+				asyncHook(rid)
 				chain.ProcessFilter(nreq, nresp)
 				return
 			case "attr":
@@ -222,6 +265,7 @@ func checkC06(c C06Case, partName string) (vs []*Violation) {
 			}
 			s := stateOf(req, resp)
 			ev.Passed = &s
+			asyncHook(rid)
 			chain.ProcessFilter(req, resp)
 		}
 		if !strings.HasPrefix(f.Kind, "mw_") {
@@ -238,11 +282,31 @@ func checkC06(c C06Case, partName string) (vs []*Violation) {
 				if f.Kind == "mw_w" || f.Kind == "mw_rw" {
 					w2 = &wrapWriter{w}
 				}
-				ev := mwRec(r.Header.Get(c06ReqHeader))
+				if f.Kind == "mw_async" {
+					w2 = &wrapWriter{w}
+				}
+				rid := r.Header.Get(c06ReqHeader)
+				ev := mwRec(rid)
 				if ev != nil {
 					ev.Passed.HTTPReq, ev.Passed.Writer = ident(r2), ident(w2)
 				}
-				next.ServeHTTP(w2, r2)
+				if f.Kind != "mw_async" {
+					next.ServeHTTP(w2, r2)
+					return
+				}
+				ctl := &asyncCtl{reached: make(chan struct{}), returned: make(chan struct{}), finished: make(chan struct{})}
+				amu.Lock()
+				async[rid] = ctl
+				amu.Unlock()
+				go func() {
+					defer close(ctl.finished)
+					defer func() { recover() }()
+					next.ServeHTTP(w2, r2)
+				}()
+				select { // return as soon as the next element knows what it passes on (or everything is done)
+				case <-ctl.reached:
+				case <-ctl.finished:
+				}
 			})
 		}
 		adapted := restful.HttpMiddlewareHandlerToFilter(mw)
@@ -262,6 +326,9 @@ func checkC06(c C06Case, partName string) (vs []*Violation) {
 			pending[rid] = ev
 			mu.Unlock()
 			adapted(req, resp, chain)
+			if ctl := getAsync(rid); ctl != nil && f.Kind == "mw_async" {
+				close(ctl.returned) // the adapter has returned: the rest of the chain may go on
+			}
 		}
 	}
 
@@ -358,7 +425,18 @@ func checkC06(c C06Case, partName string) (vs []*Violation) {
 		hr := harness.NewHTTPRequest(model.ReqSpec{Method: q.Method, Path: q.Path}, "")
 		hr.Header.Set(c06ReqHeader, strconv.Itoa(i)+suffix)
 		w := httptest.NewRecorder()
-		defer func() { panicked = recover() }()
+		defer func() {
+			panicked = recover()
+			if ctl := getAsync(strconv.Itoa(i) + suffix); ctl != nil {
+				ctl.once.Do(func() { close(ctl.reached) })
+				select {
+				case <-ctl.returned:
+				default:
+					func() { defer func() { recover() }(); close(ctl.returned) }()
+				}
+				<-ctl.finished // the detached part of the chain is joined before the request is judged
+			}
+		}()
 		if c.Via == harness.ViaServe {
 			ct.ServeHTTP(w, hr)
 		} else {
